@@ -204,19 +204,20 @@ def replay(pid, path):
     if sched_shape(ops) is not None:
         # one scheduled interleaving of real threads (C11, C17, C18, C12 stalls): model and implementation run the same
         # order under the lock-discipline observer; re-judged by the rules of the check it came from
-        model, impl, extras = run_both(header, [(name, ops)], work, lockcheck=True)
+        bg = any(' startupd ' in o for o in ops)      # the library's own update thread hangs: implementation only
+        model, impl, extras = run_both(header, [(name, ops)], work, lockcheck=True, impl_only=bg)
         shutil.rmtree(work, ignore_errors=True)
         print('model:')
         print('\n'.join(model.get(name, [])))
         print('impl:')
         print('\n'.join(impl.get(name, [])))
         rc = 0
-        d = diff_traces(model, impl)
+        d = [] if bg else diff_traces(model, impl)
         if d:
             print('DIVERGENCE at op %d' % d[0][1])
             rc = 1
         extras, lw = unlocked_writes(extras, {name: ops}, header)
-        msgs = [m_[2] for m_ in lw]
+        msgs = [m_[2] for m_ in lw] + [x for x in extras if 'DEPTH-VIOLATION' in x or 'did not complete' in x]
         npre, uop, oops, order_idx = sched_shape(ops)
         sts = [parse_line(l) for l in impl.get(name, [])]
         if len(sts) > npre:
@@ -1172,6 +1173,44 @@ def run_C16(pid, tier, seed, model_ok=True):
                 fails.append(('tool%d' % i, 0, 'C16: the patch tool failed on a (%d -> %d byte) pair: rc=%d %s' % (len(base), len(new), r.returncode, r.stderr[-200:]), [], []))
                 continue
             cases.append(('tool%d' % i, base, new, open(op_, 'rb').read(), hashlib.sha256(new).hexdigest()))
+        # the same tool fed through pipes instead of regular files (`patch base <(build-step) out`, /dev/stdin): what it
+        # reads must not depend on what stat() says about its inputs
+        for i, (which, n) in enumerate([('new', 700), ('new', 160000), ('base', 9000)]):
+            base = bytes(r3.randrange(256) for _ in range(n))
+            new = base[: n // 2] + bytes(r3.randrange(256) for _ in range(37)) + base[n // 2:]
+            bp, np_, op_, ff = (os.path.join(work, 'tp%d.%s' % (i, x)) for x in ('b', 'n', 'o', 'fifo'))
+            open(bp, 'wb').write(base); open(np_, 'wb').write(new)
+            if os.path.exists(ff):
+                os.remove(ff)
+            os.mkfifo(ff)
+            args = [exe_p, bp, ff, op_] if which == 'new' else [exe_p, ff, np_, op_]
+            pr = subprocess.Popen(args, stdout=subprocess.PIPE, stderr=subprocess.PIPE, text=True)
+            payload = new if which == 'new' else base
+
+            def feed(path=ff, data=payload):
+                try:
+                    with open(path, 'wb') as fw:        # blocks until the tool opens the pipe
+                        fw.write(data)
+                except OSError:
+                    pass
+            import threading
+            th = threading.Thread(target=feed, daemon=True)
+            th.start()
+            try:
+                so, se = pr.communicate(timeout=120)
+            except subprocess.TimeoutExpired:
+                pr.kill(); so, se = pr.communicate()
+            try:                                         # a tool that never opened the pipe: release the feeder
+                fd_ = os.open(ff, os.O_RDONLY | os.O_NONBLOCK)
+                th.join(timeout=5)
+                os.close(fd_)
+            except OSError:
+                pass
+            os.remove(ff)
+            if pr.returncode != 0 or not os.path.exists(op_):
+                # refusing a pipe is fine; a patch that is written must be right
+                continue
+            cases.append(('toolpipe_%s%d' % (which, i), base, new, open(op_, 'rb').read(), hashlib.sha256(new).hexdigest()))
         alphabet = 'abcdefghij klmnop.,;XYZ0123456789'
         for i in range(6 if tier == 'quick' else 40):
             a_ = ''.join(r3.choice(alphabet) for _ in range(r3.randrange(1, 200)))
@@ -1534,6 +1573,27 @@ def run_C12(pid, tier, seed, model_ok=True):
         model, impl, extras = run_both(header, hs + stall, work, impl_only=not model_ok, lockcheck=True)
         opsof = dict(hs + stall)
         extras, lock_fails = unlocked_writes(extras, opsof, header)
+        # the hung connection met by the library's OWN update thread: start_update_thread while the previous automatic
+        # update is still stuck must return at once, like every other call (implementation only)
+        stall_bg = []
+        r_none = resp(False, None, None)
+        for pk in ('empty', 'good1', 'good1pend2'):
+            for mid in (['op nextnum'], ['op start', 'op success'], ['op check - %s' % r_none]):
+                t0 = ['op startupd %s err' % r_none, 'op waitbgnet', 'op startupd %s err' % r_none] + mid + ['op startupd %s err' % r_none, 'op nextnum']
+                ops = [al.init] + al.seq(PFX[pk]) + ['stall bg'] + ['t0 ' + x for x in t0] + ['t1 op nextnum', 'order ' + ','.join(['0'] * 12 + ['1'] * 4 + ['0'] * 12), 'stall off', 'op nextnum', 'op curnum']
+                stall_bg.append(('SB_%s_%s' % (pk, mid[0].split()[1]), ops))
+        _, impl_bg, ex_bg = run_both(header, stall_bg, work + 'bg', impl_only=True, lockcheck=True)
+        ex_bg, lf_bg = unlocked_writes(ex_bg, dict(stall_bg), header)
+        lock_fails += lf_bg
+        for name, ops in stall_bg:
+            tr = impl_bg.get(name)
+            if tr is None or len(tr) != len([o for o in ops if o.startswith('op ')]) + 1:
+                lock_fails.append((name, len(ops) - 1, 'C12: the calls made while the update thread was stuck did not all return (%s results)' % (len(tr) if tr else 0), ops, header))
+        for x in ex_bg:
+            if 'DEPTH-VIOLATION' in x or 'did not complete' in x:
+                lock_fails.append((stall_bg[0][0], len(stall_bg[0][1]) - 1, 'C12: ' + x + ' (start_update_thread / queries issued while the automatic update hangs in its patch check)', stall_bg[0][1], header))
+            elif 'PANIC' in x or 'CRASH' in x:
+                lock_fails.append((stall_bg[0][0], len(stall_bg[0][1]) - 1, 'C12: ' + x[:300], stall_bg[0][1], header))
         divs, fails = [], []
         if model_ok:
             for (h, idx, ml, il) in diff_traces(model, impl):
